@@ -979,6 +979,51 @@ pub fn gen_run(rng: &mut Rng, sw: &Swarm, pool: &[Query], leap: &Leap, reset: bo
       }
       continue;
     }
+    // pattern: coarse-key mates — the same query (same kind, same getter, same trailing arguments)
+    // for two dates that a memo keyed too coarsely would not tell apart: the two ends of one year,
+    // the two halves of one month, two hours of one day; asked back to back on one thread, then the
+    // first one again (a "last year / last month / last day" memo, per thread or process-wide)
+    if rng.chance(1, 14) && threads[t].len() + 3 <= sw.ops_per_thread {
+      let mut found: Option<usize> = None;
+      for _ in 0..12 {
+        let k = pick_kind(rng, sw);
+        let n = KINDS[k].name;
+        if KINDS[k].arity >= 3 && ["LD.", "LH.", "SD.", "ST.", "SCD.", "SCH.", "CL", "DF.", "FT."].iter().any(|p| n.starts_with(p)) && !n.ends_with(".cmp") && n != "SD.sub" {
+          found = Some(k);
+          break;
+        }
+      }
+      if let Some(k) = found {
+        let base = if rng.chance(3, 4) { *rng.pick(&recent_tuples) } else { gen_tuple(rng, sw.era, leap, false) };
+        let base = Tup { y: base.y.max(2).min(9990), m: base.m.abs().max(1).min(12), d: base.d.max(1).min(28), ..base };
+        let other = *rng.pick(&recent_tuples);
+        let q1 = Query::new(k, args_for(rng, k, base, other));
+        let mut a = q1.args.clone();
+        let has_hour = KINDS[k].arity >= 6 && ["LH.", "ST.", "SCH.", "CL", "DF.", "FT."].iter().any(|p| KINDS[k].name.starts_with(p));
+        match rng.below(if has_hour { 4 } else { 3 }) {
+          0 | 1 => {
+            // other end of the same year
+            a[1] = if a[1].abs() <= 6 { rng.range(10, 12) } else { rng.range(1, 3) };
+            a[2] = rng.range(1, 28);
+          }
+          2 => {
+            // other half of the same month
+            a[2] = if a[2] <= 14 { rng.range(18, 28) } else { rng.range(1, 10) };
+          }
+          _ => {
+            // another hour of the same day (23 o'clock belongs to the next day's pillar)
+            a[3] = if a[3] < 12 { *rng.pick(&[23i64, 23, 13, 18]) } else { *rng.pick(&[0i64, 1, 6]) };
+          }
+        }
+        let q2 = Query::new(k, a);
+        let (qa, qb) = if rng.chance(1, 2) { (q1, q2) } else { (q2, q1) };
+        for q in [qa.clone(), qb, qa] {
+          threads[t].push(Op::Q { q, stop: false });
+          emitted += 1;
+        }
+        continue;
+      }
+    }
     // plain queries
     let q: Query;
     let roll = rng.below(100);
